@@ -72,7 +72,7 @@ def run(ctx, idx):
             q_ = (idx.qualname(rd[0].execute.module, c_.func, rd[0].execute) or K.src(c_.func))
             if q_.split(".")[-1] in MASKERS:
                 n_mk += 1
-                on_missing = any("MissingValue" in K.src(K.expand(rd[0].execute, a_)) for a_ in list(c_.args)[1:] + [k_.value for k_ in c_.keywords]) and q_.split(".")[-1] in ("masked_equal", "masked_values", "masked_where", "masked_object")
+                on_missing = any("MissingValue" in K.src(K.expand(rd[0].execute, x_) if isinstance(x_, ast.Name) else x_) or "missing" in K.src(x_).lower() for a_ in list(c_.args) + [k_.value for k_ in c_.keywords] for x_ in ast.walk(a_) if isinstance(x_, (ast.Name, ast.Subscript))) and q_.split(".")[-1] in ("masked_equal", "masked_values", "masked_where", "masked_object")
                 ctx.ob("C18.l", "%s.execute::masks-only-what-is-missing@%s" % (rd[0].key, q_.split(".")[-1]), rd[0].module.rel, c_.lineno, on_missing,
                        "masks the cells equal to MissingValue" if on_missing else
                        "`%s` marks cells missing by their VALUE: a cell that holds inf (or NaN) as data - written by EEMSWrite as it is - comes back missing, and the range checks of the Positive / Fuzzy types no longer see it" % K.src(c_)[:60])
